@@ -106,8 +106,14 @@ fn gen(seed: u64, family: &str, tier: Tier) -> Case {
     let runtime = json!({"type": "query_runtime", "limit": fmt_hms(limit_s * 1_000_000_000), "frequency": freq});
     let iters = json!({"type": "iterations", "limit": r.below(14)});
     let size = json!({"type": "solution_size", "limit": r.below(14)});
+    if family == "ksp" {
+        // two sub-searches per query (forward, reverse), each with a budget of its own; no scheduled
+        // check other than the one at loop turn 0
+        w.algorithm = json!({"type": "ksp_single_via", "k": r.range(1, 3), "underlying": if r.chance(0.5) { json!({"type": "dijkstra"}) } else { json!({"type": "a*"}) }});
+    }
+    let runtime = if family == "ksp" { json!({"type": "query_runtime", "limit": fmt_hms(limit_s.max(1) * 1_000_000_000), "frequency": 100000}) } else { runtime };
     w.termination = match family {
-        "runtime" => runtime,
+        "runtime" | "ksp" => runtime,
         "iterations" => iters,
         "size" => size,
         _ => {
@@ -421,6 +427,39 @@ fn judge(case: &Case, obs: &Obs) -> (Vec<Violation>, BTreeMap<String, u64>, bool
                 v.push(Violation { class: "size-limit-early".into(), detail: format!("query {}: stopped by the size limit {} although the unlimited tree has only {} entries", qid, l, s) });
             }
         }
+        if case.family == "ksp" {
+            // each sub-search (forward, then reverse) reads its own start time, then checks at loop turn 0
+            if let (Some(seg), Some((limit, _)), true) = (by_qid.get(&qid), lim.runtime, exact) {
+                let mono: Vec<(usize, u64)> = seg.events.iter().enumerate().filter(|(_, e)| e.kind == K_MONO).map(|(i, e)| (i, e.clock)).collect();
+                let mut fired = vec![];
+                let mut k = 0;
+                let mut subs = 0;
+                while k + 1 < mono.len() && subs < 2 {
+                    // a start read is immediately followed by the turn-0 check read
+                    if mono[k + 1].0 == mono[k].0 + 1 {
+                        fired.push(mono[k + 1].1.saturating_sub(mono[k].1) > limit);
+                        subs += 1;
+                        k += 2;
+                    } else {
+                        k += 1;
+                    }
+                }
+                bump("ksp_subsearches_walked", subs as u64);
+                let any = fired.iter().any(|f| *f);
+                if any {
+                    bump("ksp_budget_exhausted", 1);
+                }
+                if terminated && !any {
+                    v.push(Violation { class: "ksp-terminated-without-exhaustion".into(), detail: format!("query {}: stopped ({}) although no sub-search exhausted its own budget of {} ns (sub-search start/check reads: {:?})", qid, err.chars().take(120).collect::<String>(), limit, mono.iter().take(6).collect::<Vec<_>>()) });
+                }
+                // (only for successful responses: both sub-searches certainly ran, so the first two
+                // start/check pairs in the history are theirs and not progress-bar reads)
+                if !terminated && any && resp.get("error").is_none() {
+                    v.push(Violation { class: "ksp-exhausted-but-not-terminated".into(), detail: format!("query {}: a sub-search exhausted its budget at its first check but the response is not a termination error", qid) });
+                }
+            }
+            continue;
+        }
         // --- history-level clauses: walk the per-thread event stream with the reference model ---
         if let Some(seg) = by_qid.get(&qid) {
             let size_may_fire = lim.size.is_some();
@@ -469,7 +508,7 @@ impl Check for C10 {
         "C10"
     }
     fn families(&self, _tier: Tier) -> Vec<&'static str> {
-        vec!["runtime", "runtime", "combined", "iterations", "size", "combined"]
+        vec!["runtime", "runtime", "combined", "iterations", "size", "combined", "ksp"]
     }
     fn default_runs(&self, tier: Tier) -> u64 {
         match tier {
@@ -505,7 +544,7 @@ impl Check for C10 {
         vec![
             "the exact walk is only applied in worlds without dead-end vertices; elsewhere loop turns that expand nothing are invisible and only the outcome clauses are checked".into(),
             "the solution-size limit is judged by outcomes (stopped iff the unlimited tree is larger than the limit); 'never exceeds the limit by more than one out-degree' is only observed on searches that return".into(),
-            "k-shortest-path sub-searches are not walked (their own check is listed as future work in DESIGN.md)".into(),
+            "k-shortest-path sub-searches (family ksp: single-via, two sub-searches) are only walked at their start and turn-0 check reads: each sub-search must measure its budget from its own start".into(),
             "iteration and size clauses contain no clock or schedule: that part is an input sweep executed inside the simulator".into(),
         ]
     }
